@@ -23,6 +23,9 @@ import (
 type Term struct {
 	Param int
 	Lower bool
+	// Strip, when set, means "the string with every (leftmost, non-overlapping)
+	// match of this pattern removed" (ReplaceAllString(term, "")).
+	Strip *RegexConst
 }
 
 type LAtom struct {
@@ -138,8 +141,21 @@ func (s *Summarizer) termOf(v ssa.Value, env termEnv) (Term, bool) {
 			if c := x.Common(); !c.IsInvoke() {
 				if f, ok := c.Value.(*ssa.Function); ok && fnName(f) == "strings.ToLower" && len(c.Args) == 1 {
 					t, ok := s.termOf(c.Args[0], env)
+					if t.Strip != nil {
+						return Term{}, false
+					}
 					t.Lower = true
 					return t, ok
+				}
+				if f, ok := c.Value.(*ssa.Function); ok && fnName(f) == "(*regexp.Regexp).ReplaceAllString" && len(c.Args) == 3 {
+					rc := s.regexOf(c.Args[0])
+					t, ok := s.termOf(c.Args[1], env)
+					repl, okr := constString(c.Args[2])
+					if rc == nil || !ok || !okr || repl != "" || t.Lower || t.Strip != nil {
+						return Term{}, false
+					}
+					t.Strip = rc
+					return t, true
 				}
 			}
 			return Term{}, false
@@ -374,6 +390,9 @@ func (s *Summarizer) callForm(call *ssa.Call, env termEnv) *Form {
 
 func termStr(t Term) string {
 	s := fmt.Sprintf("p%d", t.Param)
+	if t.Strip != nil {
+		s = "strip(" + s + "," + t.Strip.Name + ")"
+	}
 	if t.Lower {
 		s = "lower(" + s + ")"
 	}
@@ -660,6 +679,9 @@ type Lang struct {
 	regs  []*relang.Regex
 	lower bool
 	cache map[string]*relang.DFA
+	// Overapprox is set when some literal was evaluated by an
+	// over-approximating construction (strip terms).
+	Overapprox bool
 }
 
 func NewLang() *Lang { return &Lang{b: relang.NewBuilder(), cache: map[string]*relang.DFA{}} }
@@ -714,7 +736,16 @@ func (l *Lang) add(r *relang.Regex) {
 	}
 }
 
-func (l *Lang) AddString(s string) { l.b.AddSet(relang.SetOfString(s)) }
+// AddString makes every rune of s a symbol class of its own.
+func (l *Lang) AddString(s string) {
+	seen := map[rune]bool{}
+	for _, r := range s {
+		if !seen[r] {
+			seen[r] = true
+			l.b.AddSet(relang.SetOfRunes(r))
+		}
+	}
+}
 
 func (l *Lang) Build() {
 	if l.lower {
@@ -729,6 +760,11 @@ func (l *Lang) Register(f *Form) error {
 	f.Atoms(func(a *LAtom) {
 		if a.Term.Lower {
 			l.NeedLower()
+		}
+		if a.Term.Strip != nil {
+			if _, e := l.Re(a.Term.Strip.Src); e != nil {
+				err = e
+			}
 		}
 		switch a.Kind {
 		case "search":
@@ -797,91 +833,209 @@ func (l *Lang) quoteRe(s string) string {
 // Eval turns a formula into a DFA. Ambiguous captures are reported.
 func (l *Lang) Eval(f *Form) (*relang.DFA, []string, error) {
 	var amb []string
-	var ev func(f *Form) (*relang.DFA, error)
-	ev = func(f *Form) (*relang.DFA, error) {
-		switch f.Op {
-		case "true":
-			return l.All(), nil
-		case "false":
-			return relang.EmptyLang(l.A), nil
-		case "unknown":
-			return nil, fmt.Errorf("unknown atom: %s", f.Why)
-		case "not":
-			d, err := ev(f.Sub[0])
+	var atomLang func(a *LAtom) (*relang.DFA, error)
+	atomLang = func(a *LAtom) (*relang.DFA, error) {
+		var d *relang.DFA
+		switch a.Kind {
+		case "search":
+			d = l.search(a.Regex.Src)
+		case "capeq":
+			req, err := relang.ParseCapture(a.Regex.Src, &relang.CaptureSpec{Group: a.Group, Const: a.K, Equal: true})
 			if err != nil {
 				return nil, err
 			}
-			return relang.Complement(d), nil
+			rne, err := relang.ParseCapture(a.Regex.Src, &relang.CaptureSpec{Group: a.Group, Const: a.K, Equal: false})
+			if err != nil {
+				return nil, err
+			}
+			deq := req.Compile(l.A, relang.Search).Minimize()
+			dne := rne.Compile(l.A, relang.Search).Minimize()
+			if ok, w := relang.Disjoint(deq, dne); !ok {
+				amb = append(amb, fmt.Sprintf("%s: group %d == %q depends on match priority, e.g. on %s", a.Regex.Name, a.Group, a.K, w))
+			}
+			d = deq
+		case "containsAny":
+			d = relang.ContainsSym(l.A, a.Set)
+		case "contains":
+			d = l.search(l.quoteRe(a.Str))
+		case "hasprefix":
+			d = l.search(`\A` + l.quoteRe(a.Str))
+		case "hassuffix":
+			d = l.search(l.quoteRe(a.Str) + `\z`)
+		case "eq":
+			d = relang.Literal(l.A, a.Str)
+		case "empty":
+			d = relang.Literal(l.A, "")
+		default:
+			return nil, fmt.Errorf("atom kind %s", a.Kind)
+		}
+		return d, nil
+	}
+	// lift applies the term's maps to a language over the term's value.
+	lift := func(d *relang.DFA, t Term) (*relang.DFA, error) {
+		if t.Strip != nil {
+			// ∃-decomposition lift: over-approximates (see relang.LiftErase)
+			l.Overapprox = true
+			d = relang.LiftErase(d, l.FullRe(t.Strip.Src)).Minimize()
+		}
+		if t.Lower {
+			var err error
+			d, err = relang.InverseMap(d, lowerMap)
+			if err != nil {
+				return nil, err
+			}
+		}
+		return d, nil
+	}
+	// uniform: all atoms of f are about the same term
+	uniform := func(f *Form) (Term, bool) {
+		var t Term
+		n := 0
+		ok := true
+		f.Atoms(func(a *LAtom) {
+			if n == 0 {
+				t = a.Term
+			} else if a.Term != t {
+				ok = false
+			}
+			n++
+		})
+		if u, _ := f.HasUnknown(); u {
+			return t, false
+		}
+		return t, ok && n > 0
+	}
+	// plain evaluates a uniform formula over the term's value (no lifting)
+	var plain func(f *Form, pos bool) (*relang.DFA, error)
+	plain = func(f *Form, pos bool) (*relang.DFA, error) {
+		switch f.Op {
+		case "true", "false":
+			if (f.Op == "true") == pos {
+				return l.All(), nil
+			}
+			return relang.EmptyLang(l.A), nil
+		case "not":
+			return plain(f.Sub[0], !pos)
+		case "atom":
+			d, err := atomLang(f.Atom)
+			if err != nil {
+				return nil, err
+			}
+			if !pos {
+				d = relang.Complement(d)
+			}
+			return d, nil
 		case "and", "or":
+			isAnd := (f.Op == "and") == pos
 			var acc *relang.DFA
 			for _, s := range f.Sub {
-				d, err := ev(s)
+				d, err := plain(s, pos)
 				if err != nil {
 					return nil, err
 				}
 				if acc == nil {
 					acc = d
-				} else if f.Op == "and" {
+				} else if isAnd {
 					acc = relang.Intersect(acc, d).Minimize()
 				} else {
 					acc = relang.Union(acc, d).Minimize()
 				}
 			}
 			if acc == nil {
-				if f.Op == "and" {
+				if isAnd {
 					return l.All(), nil
 				}
 				return relang.EmptyLang(l.A), nil
 			}
 			return acc, nil
-		case "atom":
-			a := f.Atom
-			var d *relang.DFA
-			switch a.Kind {
-			case "search":
-				d = l.search(a.Regex.Src)
-			case "capeq":
-				req, err := relang.ParseCapture(a.Regex.Src, &relang.CaptureSpec{Group: a.Group, Const: a.K, Equal: true})
-				if err != nil {
-					return nil, err
-				}
-				rne, err := relang.ParseCapture(a.Regex.Src, &relang.CaptureSpec{Group: a.Group, Const: a.K, Equal: false})
-				if err != nil {
-					return nil, err
-				}
-				deq := req.Compile(l.A, relang.Search).Minimize()
-				dne := rne.Compile(l.A, relang.Search).Minimize()
-				if ok, w := relang.Disjoint(deq, dne); !ok {
-					amb = append(amb, fmt.Sprintf("%s: group %d == %q depends on match priority, e.g. on %s", a.Regex.Name, a.Group, a.K, w))
-				}
-				d = deq
-			case "containsAny":
-				d = relang.ContainsSym(l.A, a.Set)
-			case "contains":
-				d = l.search(l.quoteRe(a.Str))
-			case "hasprefix":
-				d = l.search(`\A` + l.quoteRe(a.Str))
-			case "hassuffix":
-				d = l.search(l.quoteRe(a.Str) + `\z`)
-			case "eq":
-				d = relang.Literal(l.A, a.Str)
-			case "empty":
-				d = relang.Literal(l.A, "")
-			default:
-				return nil, fmt.Errorf("atom kind %s", a.Kind)
-			}
-			if a.Term.Lower {
-				var err error
-				d, err = relang.InverseMap(d, lowerMap)
-				if err != nil {
-					return nil, err
-				}
-			}
-			return d, nil
 		}
 		return nil, fmt.Errorf("bad formula op %s", f.Op)
 	}
-	d, err := ev(f)
+	var ev func(f *Form, pos bool) (*relang.DFA, error)
+	ev = func(f *Form, pos bool) (*relang.DFA, error) {
+		if t, ok := uniform(f); ok {
+			// evaluate over the term's value, lift once (keeps the guards on one
+			// stripped string correlated)
+			d, err := plain(f, pos)
+			if err != nil {
+				return nil, err
+			}
+			return lift(d, t)
+		}
+		switch f.Op {
+		case "true", "false":
+			if (f.Op == "true") == pos {
+				return l.All(), nil
+			}
+			return relang.EmptyLang(l.A), nil
+		case "unknown":
+			return nil, fmt.Errorf("unknown atom: %s", f.Why)
+		case "not":
+			return ev(f.Sub[0], !pos)
+		case "and", "or":
+			isAnd := (f.Op == "and") == pos // De Morgan
+			// group children that are uniform in the same term
+			var groups []*Form
+			byTerm := map[Term]*Form{}
+			var flat []*Form
+			var flatten func(x *Form)
+			flatten = func(x *Form) {
+				if x.Op == f.Op {
+					for _, s := range x.Sub {
+						flatten(s)
+					}
+					return
+				}
+				flat = append(flat, x)
+			}
+			flatten(f)
+			for _, s := range flat {
+				if t, ok := uniform(s); ok {
+					if g := byTerm[t]; g != nil {
+						g.Sub = append(g.Sub, s)
+					} else {
+						g = &Form{Op: f.Op, Sub: []*Form{s}}
+						byTerm[t] = g
+						groups = append(groups, g)
+					}
+				} else {
+					groups = append(groups, s)
+				}
+			}
+			var acc *relang.DFA
+			for _, s := range groups {
+				var d *relang.DFA
+				var err error
+				if t, ok := uniform(s); ok {
+					d, err = plain(s, pos)
+					if err == nil {
+						d, err = lift(d, t)
+					}
+				} else {
+					d, err = ev(s, pos)
+				}
+				if err != nil {
+					return nil, err
+				}
+				if acc == nil {
+					acc = d
+				} else if isAnd {
+					acc = relang.Intersect(acc, d).Minimize()
+				} else {
+					acc = relang.Union(acc, d).Minimize()
+				}
+			}
+			if acc == nil {
+				if isAnd {
+					return l.All(), nil
+				}
+				return relang.EmptyLang(l.A), nil
+			}
+			return acc, nil
+		}
+		return nil, fmt.Errorf("bad formula op %s", f.Op)
+	}
+	d, err := ev(f, true)
 	return d, amb, err
 }
 
